@@ -1,5 +1,6 @@
 BINARIES = {
     'c11': {'pkg': './cmd/c11', 'overlay': 'shim', 'flags': ['-gcflags=all=-l']},
+    'c11m': {'pkg': './cmd/c11', 'overlay': 'shimmem', 'flags': ['-gcflags=all=-l']},
     'c11race': {'pkg': './cmd/c11', 'overlay': 'plain', 'flags': ['-race', '-gcflags=all=-l -d=checkptr=0']},
 }
 
@@ -11,6 +12,7 @@ SPEC = {
     'note': 'scheduling points: every Lock/Unlock/RLock/RUnlock, Once.Do and atomic operation of goom and both sides of every mprotect (import-rewritten copies of the working-tree files). Data races invisible to a cooperative scheduler are looked for by a separate free-running -race pass (sampled). Cache and memory-model effects of cross-modifying code are outside the model.',
     'jobs': [
         {'bin': 'c11', 'sub': 'explore', 'shards': 16, 'death_is_violation': True, 'env': {'GODEBUG': 'clobberfree=1,gcshrinkstackoff=1'}, 'budget': {'quick': 240, 'thorough': 3000}},
+        {'bin': 'c11m', 'sub': 'codereads', 'shards': 16, 'death_is_violation': True, 'env': {'GODEBUG': 'clobberfree=1,gcshrinkstackoff=1'}, 'budget': {'quick': 240, 'thorough': 3000}},
         {'bin': 'c11race', 'sub': 'race', 'shards': 1, 'race_log': True, 'death_is_violation': True, 'env': {'GORACE': 'halt_on_error=0', 'GODEBUG': 'gcshrinkstackoff=1'}},
     ],
     'rule': 'scenarios: {F1,F2 mockers + 1 caller (same page), F1,F3 mockers + 1 caller (other page), F2 mocker + 2 callers; thorough adds 2 mockers + 2 callers and 3 mockers}; for each all schedules with <= b preemptions for b = 0,1,2(,3), '
